@@ -187,12 +187,14 @@ class Run:
             lines += [l for l in open(path).read().split("\n") if l and not l.startswith("#")]
         return lines
 
-    def run_impl(self, variant, cases, tag):
+    def run_impl(self, variant, cases, tag, env_extra=None, binary=None):
         """returns (impl_lines, oracle list[(idx, kind, req, expected)])"""
-        binp = os.path.join(BIN, "vh-noasm" if variant == "noasm" else "vh")
+        binp = binary or os.path.join(BIN, "vh-noasm" if variant == "noasm" else "vh")
+        env = dict(self.env, **(env_extra or {}))
         req, exp = os.path.join(self.work, tag + ".req"), os.path.join(self.work, tag + ".exp")
         inp = ("\n".join(cases) + "\n").encode()
-        p = subprocess.run([binp, "impl", req, exp], input=inp, stdout=subprocess.PIPE, stderr=subprocess.PIPE, env=self.env)
+        p = subprocess.run([binp, "impl", req, exp], input=inp, stdout=subprocess.PIPE, stderr=subprocess.PIPE, env=env)
+        self.last_stderr = p.stderr.decode("utf-8", "replace")
         lines = p.stdout.decode("utf-8", "replace").split("\n")
         if lines and lines[-1] == "": lines.pop()
         if p.returncode != 0 or len(lines) != len(cases):
@@ -227,7 +229,7 @@ class Run:
         cs = [tr(c) for c in cases] if tr else list(cases)
         cs = [c for c in cs if c]
         tag = f"{spec['family']}-{variant}"
-        impl, orc = self.run_impl(variant, cs, tag)
+        impl, orc = self.run_impl(variant, cs, tag, env_extra=spec.get("env"))
         model = self.run_driver(DRIVER, cs) if (use_model and self.lake_ok) else None
         ans = self.run_driver(SPEC, [q[2] for q in orc])
         judge = spec["judge"]
@@ -254,7 +256,10 @@ class Run:
                 ml = model[i]
                 left = ml.split(" | ")[0].strip()
                 kf = spec.get("kview")
-                a, b = (kf(il), kf(left)) if kf else (il, left)
+                if kf and kf.__code__.co_argcount == 2:
+                    a, b = kf(il, c), kf(left, c)
+                else:
+                    a, b = (kf(il), kf(left)) if kf else (il, left)
                 if a != b:
                     self.viol.append(Violation("K", f"model and real code differ ({variant})", case=c, impl=il, expected=left, variant=variant))
                 elif " | " in ml and spec.get("mview"):
